@@ -307,3 +307,14 @@ var ProfileC20 = &Profile{
 		return nil
 	},
 }
+
+var ProfileC10 = &Profile{
+	ID: "C10", Name: "forced-close", MinBlocks: 6, MaxBlocks: 40, MaxTxs: 5, Spec: specDefault, Check: CheckC10,
+	Weights: map[string]int{"stablestake.bond": 6, "leveragelp.open": 12, "leveragelp.close": 4, "leveragelp.close_positions": 8, "leveragelp.update_stop_loss": 3,
+		"perpetual.open": 14, "perpetual.close": 4, "perpetual.close_positions": 10, "perpetual.update_stop_loss": 3, "perpetual.update_take_profit": 2,
+		"oracle.feed_price": 12, "amm.swap_in": 4, "amm.swap_out": 2, "amm.join": 2, "amm.exit": 1},
+	Rule: "history in which a third party altered or closed at least one position (judged eligible on the previous state) and a close-positions request named a position that stayed untouched",
+	NonTrivial: func(h *History) bool {
+		return h.Labels["c10-lp-forced-close-eligible"]+h.Labels["c10-mtp-forced-close-eligible"] > 0 && h.Labels["c10-named-but-untouched"] > 0
+	},
+}
